@@ -20,9 +20,25 @@
    * Edge::weight() is the constant 1 in the code; the model uses 1.
    * C++ [int] counters that the code decrements are [nat] here; a decrement of 0 is [Forbidden]
      (never silently truncated).  Violated [assert]s are [Forbidden] too.
-   * dyndep (Plan::DyndepsLoaded), StartEdge/FinishCommand I/O failures are out of scope.
-   * The tree modelled is the one WITH the commit "fix: mark initially pool-delayed edges as scheduled
-     in Plan::ScheduleInitialEdges" (see [sched_init_edge]). *)
+   * StartEdge/FinishCommand I/O failures and failing dyndep loads (parse error, cycle) are out of scope.
+   * DYNDEP LOADS during the build (Builder::LoadDyndeps called from Plan::EdgeFinished, then
+     Plan::DyndepsLoaded / RefreshDyndepDependents / UnmarkDependents) ARE modelled:
+       - the graph update is static data: an [ei_ins]/[ei_cons] entry [(x, Some b)] exists only once the
+         dyndep information of edge [b] has been loaded ([p_loaded]); [ei_ddprod b = Some e] says that b is
+         bound to a dyndep file that is still pending when Build() starts and is produced by edge e;
+         the load happens inside EdgeFinished(e), for every successful EdgeFinished (a command, a phony
+         edge, an unwanted edge checked off by EdgeMaybeReady);
+       - what the re-scan (DependencyScan::RecomputeDirty on the dependents) decides is an input taken
+         from the trace, like the restat pruning decisions: [ld_dirty], [ld_ready], [ld_added], and so is
+         the iteration order of dyndep_walk ([ld_walk]); every such fact the model can check is checked
+         ([apply_load]: dependents, want_ values, readiness of inputs, closure of want_, no scheduled
+         edge loses a ready input, every edge that became ready is visited);
+       - the model itself does the bookkeeping: kWantNothing -> kWantToStart with EdgeWanted's counters,
+         the new want_ entries, outputs_ready of the clean dependents, the EdgeMaybeReady loop.
+     Dyndep files loaded by the dependency scan before Build() are part of the snapshot (plain entries).
+   * The tree modelled is the one WITH the commits "fix: mark initially pool-delayed edges as scheduled
+     in Plan::ScheduleInitialEdges" (see [sched_init_edge]; the old behaviour is [sched_init_edge_old])
+     and "fix: keep an edge dirty when it is re-scanned after a dyndep load" (see [op_rescan]). *)
 From NinjaV Require Import Base.Bytes.
 
 (* ------------------------------------------------------------------ static data *)
@@ -34,20 +50,28 @@ Definition want_eqb (a b : want_t) : bool :=
   | _, _ => false
   end.
 
+(* an entry [(x, None)] is always there; [(x, Some b)] once the dyndep information of edge b is loaded *)
+Definition gated := (nat * option nat)%type.
+
 Record edge_info := mkEdge {
-  ei_ins : list nat;
-  ei_cons : list nat;
+  ei_ins : list gated;
+  ei_cons : list gated;
   ei_pool : nat;
-  ei_phony : bool }.
+  ei_phony : bool;
+  ei_ddprod : option nat;   (* bound to a dyndep file still pending at Build(), produced by that edge *)
+  ei_ddouts : list nat }.   (* for the producer of pending dyndep files: those nodes' out_edges() *)
+
+Definition plain (l : list nat) : list gated := map (fun x => (x, None)) l.
 
 (* [g_depths]: depth of pool id p (0 = unlimited; pool ids beyond the list have depth 0). *)
 Record graph := mkGraph { g_edges : list edge_info; g_depths : list nat }.
 
-Definition dummy_edge : edge_info := mkEdge [] [] 0 false.
+Definition dummy_edge : edge_info := mkEdge [] [] 0 false None [].
 Definition einfo (g : graph) (e : nat) : edge_info := nth e (g_edges g) dummy_edge.
 Definition n_edges (g : graph) : nat := length (g_edges g).
-Definition ins (g : graph) (e : nat) : list nat := ei_ins (einfo g e).
-Definition cons_of (g : graph) (e : nat) : list nat := ei_cons (einfo g e).
+Definition ins_full (g : graph) (e : nat) : list nat := map fst (ei_ins (einfo g e)).
+Definition ddprod (g : graph) (e : nat) : option nat := ei_ddprod (einfo g e).
+Definition ddouts (g : graph) (e : nat) : list nat := ei_ddouts (einfo g e).
 Definition pool (g : graph) (e : nat) : nat := ei_pool (einfo g e).
 Definition phony (g : graph) (e : nat) : bool := ei_phony (einfo g e).
 Definition depth (g : graph) (q : nat) : nat := nth q (g_depths g) 0.
@@ -86,28 +110,39 @@ Record plan := mkPlan {
   p_wanted : nat;                    (* Plan::wanted_edges_ *)
   p_commands : nat;                  (* Plan::command_edges_ *)
   p_oready : nat -> bool;            (* Edge::outputs_ready_ *)
-  p_tokens : nat }.                  (* jobserver slots currently held through Edge::job_slot_ *)
+  p_tokens : nat;                    (* jobserver slots currently held through Edge::job_slot_ *)
+  p_loaded : nat -> bool }.          (* the dyndep information of this (bound) edge has been loaded *)
 
 Definition set_want (p : plan) (w : nat -> option want_t) : plan :=
-  mkPlan w (p_ready p) (p_delayed p) (p_use p) (p_wanted p) (p_commands p) (p_oready p) (p_tokens p).
+  mkPlan w (p_ready p) (p_delayed p) (p_use p) (p_wanted p) (p_commands p) (p_oready p) (p_tokens p) (p_loaded p).
 Definition set_ready (p : plan) (r : list nat) : plan :=
-  mkPlan (p_want p) r (p_delayed p) (p_use p) (p_wanted p) (p_commands p) (p_oready p) (p_tokens p).
+  mkPlan (p_want p) r (p_delayed p) (p_use p) (p_wanted p) (p_commands p) (p_oready p) (p_tokens p) (p_loaded p).
 Definition set_delayed (p : plan) (d : list nat) : plan :=
-  mkPlan (p_want p) (p_ready p) d (p_use p) (p_wanted p) (p_commands p) (p_oready p) (p_tokens p).
+  mkPlan (p_want p) (p_ready p) d (p_use p) (p_wanted p) (p_commands p) (p_oready p) (p_tokens p) (p_loaded p).
 Definition set_use (p : plan) (u : nat -> nat) : plan :=
-  mkPlan (p_want p) (p_ready p) (p_delayed p) u (p_wanted p) (p_commands p) (p_oready p) (p_tokens p).
+  mkPlan (p_want p) (p_ready p) (p_delayed p) u (p_wanted p) (p_commands p) (p_oready p) (p_tokens p) (p_loaded p).
 Definition set_wanted (p : plan) (n : nat) : plan :=
-  mkPlan (p_want p) (p_ready p) (p_delayed p) (p_use p) n (p_commands p) (p_oready p) (p_tokens p).
+  mkPlan (p_want p) (p_ready p) (p_delayed p) (p_use p) n (p_commands p) (p_oready p) (p_tokens p) (p_loaded p).
 Definition set_commands (p : plan) (n : nat) : plan :=
-  mkPlan (p_want p) (p_ready p) (p_delayed p) (p_use p) (p_wanted p) n (p_oready p) (p_tokens p).
+  mkPlan (p_want p) (p_ready p) (p_delayed p) (p_use p) (p_wanted p) n (p_oready p) (p_tokens p) (p_loaded p).
 Definition set_oready (p : plan) (o : nat -> bool) : plan :=
-  mkPlan (p_want p) (p_ready p) (p_delayed p) (p_use p) (p_wanted p) (p_commands p) o (p_tokens p).
+  mkPlan (p_want p) (p_ready p) (p_delayed p) (p_use p) (p_wanted p) (p_commands p) o (p_tokens p) (p_loaded p).
 Definition set_tokens (p : plan) (n : nat) : plan :=
-  mkPlan (p_want p) (p_ready p) (p_delayed p) (p_use p) (p_wanted p) (p_commands p) (p_oready p) n.
+  mkPlan (p_want p) (p_ready p) (p_delayed p) (p_use p) (p_wanted p) (p_commands p) (p_oready p) n (p_loaded p).
+Definition set_loaded (p : plan) (l : nat -> bool) : plan :=
+  mkPlan (p_want p) (p_ready p) (p_delayed p) (p_use p) (p_wanted p) (p_commands p) (p_oready p) (p_tokens p) l.
+
+(* the graph as it is now *)
+Definition active (p : plan) (x : gated) : bool :=
+  match snd x with None => true | Some b => p_loaded p b end.
+Definition ins_at (g : graph) (p : plan) (e : nat) : list nat :=
+  map fst (filter (active p) (ei_ins (einfo g e))).
+Definition cons_at (g : graph) (p : plan) (e : nat) : list nat :=
+  map fst (filter (active p) (ei_cons (einfo g e))).
 
 (* Edge::AllInputsReady *)
 Definition all_inputs_ready (g : graph) (p : plan) (e : nat) : bool :=
-  forallb (p_oready p) (ins g e).
+  forallb (p_oready p) (ins_at g p e).
 
 (* Plan::more_to_do *)
 Definition more_to_do (p : plan) : bool := (0 <? p_wanted p) && (0 <? p_commands p).
@@ -175,9 +210,183 @@ Definition release_token (cfg : config) (holds_slot : bool) (p : plan) : option 
     else Some p
   end.
 
+
+(* ------------------------------------------------------------------ dyndep loads *)
+Definition count_if (f : nat -> bool) (l : list nat) : nat := length (filter f l).
+
+Definition is_wanted (w : nat -> option want_t) (e : nat) : bool :=
+  match w e with Some WToStart | Some WToFinish => true | _ => false end.
+
+(* number of wanted non-phony edges *)
+Definition npwf (g : graph) (w : nat -> option want_t) : nat :=
+  count_if (fun e => is_wanted w e && negb (phony g e)) (all_edges g).
+
+Definition in_want (p : plan) (e : nat) : bool :=
+  match p_want p e with None => false | Some _ => true end.
+
+(* What the trace says about one call of Plan::DyndepsLoaded (the one made by EdgeFinished of the
+   edge that produces the dyndep file): the decisions of the re-scan and the order of dyndep_walk. *)
+Record load := mkLoad {
+  ld_dirty : list nat;            (* dependents in want_ as kWantNothing that RecomputeDirty found dirty *)
+  ld_ready : list nat;            (* edges outside want_ that the re-scan visited for the first time and
+                                     found up to date with ready inputs: outputs_ready_ = true *)
+  ld_added : list (nat * bool);   (* entries AddSubTarget / AddTarget inserted into want_, in order;
+                                     true = the node is dirty: kWantToStart + EdgeWanted *)
+  ld_walk : list nat }.           (* dyndep_walk, in iteration order *)
+
+(* Plan::EdgeWanted (the Status call EdgeAddedToPlan is accounted for by the caller: total_edges_
+   follows command_edges_) *)
+Definition edge_wanted (g : graph) (e : nat) (p : plan) : plan :=
+  let p1 := set_wanted p (S (p_wanted p)) in
+  if phony g e then p1 else set_commands p1 (S (p_commands p1)).
+
+Definition add_new (l acc : list nat) : list nat :=
+  fold_left (fun a c => if memb c a then a else a ++ [c]) l acc.
+
+(* Plan::UnmarkDependents from the dyndep nodes: the out-edges that are in want_, and transitively
+   the out-edges in want_ of their outputs (every edge in want_ has been visited by the scan) *)
+Definition dep_step (g : graph) (p : plan) (ds : list nat) : list nat :=
+  add_new (filter (in_want p) (flat_map (cons_at g p) ds)) ds.
+Definition dependents (g : graph) (p : plan) (e : nat) : list nat :=
+  Nat.iter (n_edges g) (dep_step g p) (add_new (filter (in_want p) (ddouts g e)) []).
+
+(* RefreshDyndepDependents: a dependent found dirty: kWantNothing -> kWantToStart, EdgeWanted *)
+Definition op_dirty (g : graph) (deps : list nat) (x : nat) (p : plan) : option plan :=
+  match p_want p x with
+  | Some WNothing =>
+    if (x <? n_edges g) && memb x deps && negb (p_oready p x)
+    then Some (edge_wanted g x (set_want p (upd (p_want p) x (Some WToStart))))
+    else None
+  | _ => None
+  end.
+
+(* RecomputeDirty reaches an edge the scan had never visited and finds it up to date *)
+Definition op_ready (g : graph) (x : nat) (p : plan) : option plan :=
+  match p_want p x with
+  | None =>
+    if (x <? n_edges g) && negb (p_oready p x) && all_inputs_ready g p x
+    then Some (set_oready p (upd (p_oready p) x true))
+    else None
+  | _ => None
+  end.
+
+(* RecomputeDirty on a dependent that is in want_ only for its dependents and is (still) clean: its
+   outputs are ready as soon as all its inputs are.  Edges the plan wants stay dirty (with the fix
+   "keep an edge dirty when it is re-scanned after a dyndep load"). *)
+Definition op_rescan (g : graph) (x : nat) (p : plan) : plan :=
+  match p_want p x with
+  | Some WNothing =>
+    if (x <? n_edges g) && negb (p_oready p x) && all_inputs_ready g p x
+    then set_oready p (upd (p_oready p) x true) else p
+  | _ => p
+  end.
+
+(* AddSubTarget inserts an edge that is not in want_ and whose outputs are not ready *)
+Definition op_add (g : graph) (xw : nat * bool) (p : plan) : option plan :=
+  let x := fst xw in
+  match p_want p x with
+  | None =>
+    if (x <? n_edges g) && negb (p_oready p x)
+    then Some (if snd xw then edge_wanted g x (set_want p (upd (p_want p) x (Some WToStart)))
+               else set_want p (upd (p_want p) x (Some WNothing)))
+    else None
+  | _ => None
+  end.
+
+Fixpoint fold_opt {A : Type} (f : A -> plan -> option plan) (l : list A) (p : plan) : option plan :=
+  match l with
+  | [] => Some p
+  | x :: t => match f x p with Some p' => fold_opt f t p' | None => None end
+  end.
+
+(* the checks on the state after the bookkeeping ([p0] = the state before the load) *)
+Definition chk_closed (g : graph) (p : plan) : bool :=
+  forallb (fun x => negb (in_want p x)
+                    || forallb (fun i => p_oready p i || in_want p i) (ins_at g p x)) (all_edges g).
+Definition chk_sched (g : graph) (p : plan) : bool :=
+  forallb (fun x => match p_want p x with
+                    | Some WToFinish => all_inputs_ready g p x
+                    | _ => true
+                    end) (all_edges g).
+Definition chk_oclosed (g : graph) (p : plan) : bool :=
+  forallb (fun x => negb (p_oready p x) || all_inputs_ready g p x) (all_edges g).
+(* an edge that is wanted/in want_, not scheduled, and has all inputs ready after the load must be on
+   its way to EdgeMaybeReady: in dyndep_walk, or already so before the load (then NodeFinished of an
+   enclosing EdgeFinished visits it), or behind a clean dependent that is about to be checked off *)
+Definition chk_walk (g : graph) (p0 p : plan) (walk : list nat) : bool :=
+  forallb (fun x => match p_want p x with
+                    | Some WToStart | Some WNothing =>
+                      negb (all_inputs_ready g p x) || memb x walk
+                      || (all_inputs_ready g p0 x && in_want p0 x)
+                      || existsb (fun i => p_oready p i
+                                           && match p_want p i with Some WNothing => true | _ => false end)
+                                 (ins_at g p x)
+                    | _ => true
+                    end) (all_edges g).
+
+(* consistency of the bookkeeping with the state [p0] before the load: how want_ and outputs_ready_
+   may have changed, the counters *)
+Definition is_nothing (w : option want_t) : bool := match w with Some WNothing => true | _ => false end.
+Definition chk_evol (g : graph) (L : load) (p0 p : plan) : bool :=
+  forallb (fun x =>
+    (match p_want p0 x, p_want p x with
+     | None, None => true
+     | Some a, Some b => want_eqb a b || (want_eqb a WNothing && want_eqb b WToStart)
+     | None, Some b => negb (want_eqb b WToFinish) && negb (p_oready p x)
+                       && (want_eqb b WToStart || existsb (fun a => Nat.eqb (fst a) x && negb (snd a)) (ld_added L))
+     | Some _, None => false
+     end)
+    && (negb (p_oready p x) || is_nothing (p_want p x) || negb (in_want p x))
+    && (negb (p_oready p x) || p_oready p0 x || is_nothing (p_want p0 x) || memb x (ld_ready L)))
+    (all_edges g)
+  && Nat.eqb (p_wanted p) (count_if (is_wanted (p_want p)) (all_edges g))
+  && Nat.eqb (p_commands p + npwf g (p_want p0)) (p_commands p0 + npwf g (p_want p))
+  && (p_commands p0 <=? p_commands p).
+
+(* the edges whose dyndep information EdgeFinished(e) loads *)
+Definition bound (g : graph) (p : plan) (e : nat) : list nat :=
+  filter (fun b => (match ddprod g b with Some e' => Nat.eqb e' e | None => false end)
+                   && negb (p_loaded p b)) (all_edges g).
+
+(* Builder::LoadDyndeps + Plan::DyndepsLoaded up to the EdgeMaybeReady loop; returns the new plan and
+   the edges that loop visits *)
+Definition apply_load (g : graph) (loads : nat -> option load) (e : nat) (p : plan)
+  : res (plan * list nat) :=
+  match bound g p e with
+  | [] => Ok (p, [])                      (* no output of e is a pending dyndep file *)
+  | bs =>
+    match loads e with
+    | None => Forbidden                   (* the trace must say what the re-scan decided *)
+    | Some L =>
+      let p1 := set_loaded p (fun b => memb b bs || p_loaded p b) in
+      let deps := dependents g p1 e in
+      match fold_opt (op_dirty g deps) (ld_dirty L) p1 with
+      | None => Forbidden
+      | Some p2 =>
+        match fold_opt (op_ready g) (ld_ready L) p2 with
+        | None => Forbidden
+        | Some p3 =>
+          let p4 := Nat.iter (n_edges g) (fun pp => fold_left (fun a x => op_rescan g x a) deps pp) p3 in
+          match fold_opt (op_add g) (ld_added L) p4 with
+          | None => Forbidden
+          | Some p5 =>
+            if chk_evol g L p p5 && chk_closed g p5 && chk_sched g p5 && chk_oclosed g p5
+               && chk_walk g p p5 (ld_walk L)
+            then Ok (p5, ld_walk L)
+            else Forbidden
+          end
+        end
+      end
+    end
+  end.
+
 (* Plan::EdgeFinished, with NodeFinished and EdgeMaybeReady inlined as the fold.
-   [success] = (result == kEdgeSucceeded); [holds_slot] = the edge went through FindWork. *)
+   [success] = (result == kEdgeSucceeded); [holds_slot] = the edge went through FindWork.
+   Between `outputs_ready_ = true` and the NodeFinished calls, Builder::LoadDyndeps loads the pending
+   dyndep files among the outputs ([apply_load]); DyndepsLoaded's EdgeMaybeReady loop over dyndep_walk
+   and NodeFinished's loop over the out-edges are the same operation, so they are one fold. *)
 Fixpoint edge_finished (fuel : nat) (g : graph) (cfg : config) (prio : list nat)
+         (loads : nat -> option load)
          (e : nat) (success holds_slot : bool) (p : plan) : res plan :=
   match fuel with
   | O => OutOfFuel
@@ -207,19 +416,24 @@ Fixpoint edge_finished (fuel : nat) (g : graph) (cfg : config) (prio : list nat)
             | Some n =>
               let p4 := set_oready (set_want (set_wanted p3 n) (upd (p_want p3) e None))
                                    (upd (p_oready p3) e true) in
-              (* NodeFinished for every output; EdgeMaybeReady for every wanted out-edge *)
-              fold_res
-                (fun d pp =>
-                   match p_want pp d with
-                   | None => Ok pp
-                   | Some wd =>
-                     if all_inputs_ready g pp d then
-                       if want_eqb wd WNothing
-                       then edge_finished fuel' g cfg prio d true false pp
-                       else schedule_work g prio d pp
-                     else Ok pp
-                   end)
-                (cons_of g e) p4
+              match apply_load g loads e p4 with
+              | Ok (p5, walk) =>
+                (* NodeFinished for every output; EdgeMaybeReady for every wanted out-edge *)
+                fold_res
+                  (fun d pp =>
+                     match p_want pp d with
+                     | None => Ok pp
+                     | Some wd =>
+                       if all_inputs_ready g pp d then
+                         if want_eqb wd WNothing
+                         then edge_finished fuel' g cfg prio loads d true false pp
+                         else schedule_work g prio d pp
+                       else Ok pp
+                     end)
+                  (walk ++ cons_at g p5 e) p5
+              | Forbidden => Forbidden
+              | OutOfFuel => OutOfFuel
+              end
             end
         end
       end
@@ -245,6 +459,23 @@ Definition sched_init_edge (g : graph) (e : nat) (p : plan) : plan :=
 
 Definition schedule_initial_plan (g : graph) (prio : list nat) (p : plan) : plan :=
   let p1 := fold_left (fun pp e => sched_init_edge g e pp) (all_edges g) p in
+  fold_left (fun pp q => retrieve g prio q pp) (seq 0 (length (g_depths g))) p1.
+
+(* OLD behaviour, before the fix: DelayEdge only, want_ stays kWantToStart while the edge sits in
+   delayed_/ready_ (kept for the refutation [C06_once_old_refuted]: a dyndep load re-schedules it) *)
+Definition sched_init_edge_old (g : graph) (e : nat) (p : plan) : plan :=
+  match p_want p e with
+  | Some WToStart =>
+    if all_inputs_ready g p e then
+      if Nat.eqb (depth g (pool g e)) 0
+      then set_ready (set_want p (upd (p_want p) e (Some WToFinish))) (e :: p_ready p)
+      else set_delayed p (e :: p_delayed p)
+    else p
+  | _ => p
+  end.
+
+Definition schedule_initial_plan_old (g : graph) (prio : list nat) (p : plan) : plan :=
+  let p1 := fold_left (fun pp e => sched_init_edge_old g e pp) (all_edges g) p in
   fold_left (fun pp q => retrieve g prio q pp) (seq 0 (length (g_depths g))) p1.
 
 (* ------------------------------------------------------------------ the builder loop *)
@@ -313,7 +544,8 @@ Definition in_build (s : state) : bool :=
 Definition scheduled (s : state) : list nat :=
   p_ready (s_plan s) ++ p_delayed (s_plan s) ++ s_running s ++ s_failed s.
 
-Definition step_res (g : graph) (cfg : config) (s : state) (ev : event) : res state :=
+Definition step_res (g : graph) (cfg : config) (loads : nat -> option load) (s : state) (ev : event)
+  : res state :=
   let p := s_plan s in
   match ev with
   | EvStart e prio =>
@@ -325,8 +557,12 @@ Definition step_res (g : graph) (cfg : config) (s : state) (ev : event) : res st
       let p1 := set_ready p (rem e (p_ready p)) in
       let p2 := match c_jobserver cfg with None => p1 | Some _ => set_tokens p1 (S (p_tokens p1)) end in
       if phony g e then
-        match edge_finished (plan_fuel g) g cfg prio e true true p2 with
-        | Ok p3 => Ok (set_plan s p3)
+        match edge_finished (plan_fuel g) g cfg prio loads e true true p2 with
+        | Ok p3 =>
+          (* EdgeAddedToPlan calls made by a dyndep load inside EdgeFinished *)
+          Ok (mkState p3 (s_running s) (s_pending s) (s_fa s) (s_exit s)
+                      (s_total s + (p_commands p3 - p_commands p2)) (s_started s) (s_finished s)
+                      (s_failed s) (s_waiting s) (s_phase s))
         | Forbidden => Forbidden
         | OutOfFuel => OutOfFuel
         end
@@ -371,14 +607,15 @@ Definition step_res (g : graph) (cfg : config) (s : state) (ev : event) : res st
         let run' := rem e (s_running s) in
         let fin' := S (s_finished s) in              (* status_->BuildEdgeFinished *)
         if Nat.eqb code 0 then
-          match edge_finished (plan_fuel g) g cfg prio e true true p with
-          | Ok p' => Ok (mkState p' run' pend (s_fa s) (s_exit s) (s_total s) (s_started s) fin'
+          match edge_finished (plan_fuel g) g cfg prio loads e true true p with
+          | Ok p' => Ok (mkState p' run' pend (s_fa s) (s_exit s)
+                                 (s_total s + (p_commands p' - p_commands p)) (s_started s) fin'
                                  (s_failed s) false (s_phase s))
           | Forbidden => Forbidden
           | OutOfFuel => OutOfFuel
           end
         else
-          match edge_finished (plan_fuel g) g cfg prio e false true p with
+          match edge_finished (plan_fuel g) g cfg prio loads e false true p with
           | Ok p' =>
             (* SetFailureCode(code); if (failures_allowed) failures_allowed-- *)
             Ok (mkState p' run' pend (pred (s_fa s)) code (s_total s) (s_started s) fin'
@@ -425,14 +662,16 @@ Definition step_res (g : graph) (cfg : config) (s : state) (ev : event) : res st
     end
   end.
 
-Definition step (g : graph) (cfg : config) (s : state) (ev : event) : option state :=
-  match step_res g cfg s ev with Ok s' => Some s' | _ => None end.
+Definition step (g : graph) (cfg : config) (loads : nat -> option load) (s : state) (ev : event)
+  : option state :=
+  match step_res g cfg loads s ev with Ok s' => Some s' | _ => None end.
 
-Fixpoint accepts (g : graph) (cfg : config) (s : state) (evs : list event) : option state :=
+Fixpoint accepts (g : graph) (cfg : config) (loads : nat -> option load) (s : state) (evs : list event)
+  : option state :=
   match evs with
   | [] => Some s
-  | ev :: t => match step g cfg s ev with
-               | Some s' => accepts g cfg s' t
+  | ev :: t => match step g cfg loads s ev with
+               | Some s' => accepts g cfg loads s' t
                | None => None
                end
   end.
@@ -446,7 +685,8 @@ Record snapshot := mkSnap {
   sn_commands : nat }.
 
 Definition snap_plan (sn : snapshot) : plan :=
-  mkPlan (sn_want sn) [] [] (fun _ => 0) (sn_wanted sn) (sn_commands sn) (sn_oready sn) 0.
+  mkPlan (sn_want sn) [] [] (fun _ => 0) (sn_wanted sn) (sn_commands sn) (sn_oready sn) 0
+         (fun _ => false).
 
 (* Build() up to the loop: PrepareQueue -> ScheduleInitialEdges; locals initialised.
    Status total_edges_ = number of EdgeAddedToPlan calls so far = command_edges_. *)
@@ -454,33 +694,47 @@ Definition init_state (g : graph) (cfg : config) (prio : list nat) (sn : snapsho
   mkState (schedule_initial_plan g prio (snap_plan sn)) [] 0 (c_k cfg) 0 (sn_commands sn) 0 0 []
           false PhBuild.
 
-Definition run (g : graph) (cfg : config) (prio : list nat) (sn : snapshot) (evs : list event)
-  : option state :=
-  accepts g cfg (init_state g cfg prio sn) evs.
+(* the same with the OLD ScheduleInitialEdges *)
+Definition init_state_old (g : graph) (cfg : config) (prio : list nat) (sn : snapshot) : state :=
+  mkState (schedule_initial_plan_old g prio (snap_plan sn)) [] 0 (c_k cfg) 0 (sn_commands sn) 0 0 []
+          false PhBuild.
+
+Definition run (g : graph) (cfg : config) (loads : nat -> option load) (prio : list nat)
+           (sn : snapshot) (evs : list event) : option state :=
+  accepts g cfg loads (init_state g cfg prio sn) evs.
 
 (* ------------------------------------------------------------------ computable well-formedness *)
-Definition count_if (f : nat -> bool) (l : list nat) : nat := length (filter f l).
+Definition gated_eqb (a b : gated) : bool :=
+  Nat.eqb (fst a) (fst b)
+  && match snd a, snd b with
+     | None, None => true
+     | Some x, Some y => Nat.eqb x y
+     | _, _ => false
+     end.
+Definition memg (x : gated) (l : list gated) : bool := existsb (gated_eqb x) l.
 
-Definition is_wanted (w : nat -> option want_t) (e : nat) : bool :=
-  match w e with Some WToStart | Some WToFinish => true | _ => false end.
-
+(* inputs and out-edges mirror each other entry by entry, under the same condition; [rank] decreases
+   along every (present or future) input: the graph with all dyndep information is acyclic *)
 Definition wf_graph_b (g : graph) (rank : nat -> nat) : bool :=
   forallb (fun e =>
-    forallb (fun i => (i <? n_edges g) && (rank i <? rank e) && memb e (cons_of g i)) (ins g e)
-    && forallb (fun d => (d <? n_edges g) && memb e (ins g d)) (cons_of g e))
+    forallb (fun i => (fst i <? n_edges g) && (rank (fst i) <? rank e)
+                      && memg (e, snd i) (ei_cons (einfo g (fst i)))) (ei_ins (einfo g e))
+    && forallb (fun d => (fst d <? n_edges g) && memg (e, snd d) (ei_ins (einfo g (fst d))))
+               (ei_cons (einfo g e)))
     (all_edges g).
 
 Definition wf_snap_b (g : graph) (sn : snapshot) : bool :=
+  let ins := ins_at g (snap_plan sn) in
   forallb (fun e =>
-    (if sn_oready sn e then forallb (sn_oready sn) (ins g e) else true) &&
+    (if sn_oready sn e then forallb (sn_oready sn) (ins e) else true) &&
     match sn_want sn e with
     | None => true
     | Some w =>
       negb (sn_oready sn e)
       && negb (want_eqb w WToFinish)
       && forallb (fun i => sn_oready sn i || (match sn_want sn i with None => false | _ => true end))
-                 (ins g e)
-      && (if want_eqb w WNothing then negb (forallb (sn_oready sn) (ins g e)) else true)
+                 (ins e)
+      && (if want_eqb w WNothing then negb (forallb (sn_oready sn) (ins e)) else true)
     end) (all_edges g)
   && Nat.eqb (sn_wanted sn) (count_if (is_wanted (sn_want sn)) (all_edges g))
   && Nat.eqb (sn_commands sn)
@@ -494,17 +748,17 @@ Definition wf_cfg_b (cfg : config) : bool := (0 <? c_j cfg) && (0 <? c_k cfg).
    completion: starting from [s], start ready phony edges that belong to [allowed] (the first such
    edge in the order of [allowed], so the caller controls the order), greedily, and return the
    [EvStart] events found.  (Soundness: [auto_phony_accepts] in PlanProofs.v.) *)
-Fixpoint auto_phony (fuel : nat) (g : graph) (cfg : config) (prio allowed : list nat) (s : state)
-  : list event * state :=
+Fixpoint auto_phony (fuel : nat) (g : graph) (cfg : config) (loads : nat -> option load)
+         (prio allowed : list nat) (s : state) : list event * state :=
   match fuel with
   | O => ([], s)
   | S fuel' =>
     match filter (fun e => phony g e && memb e (p_ready (s_plan s))) allowed with
     | [] => ([], s)
     | e :: _ =>
-      match step g cfg s (EvStart e prio) with
+      match step g cfg loads s (EvStart e prio) with
       | None => ([], s)
-      | Some s' => let '(evs, s'') := auto_phony fuel' g cfg prio allowed s' in
+      | Some s' => let '(evs, s'') := auto_phony fuel' g cfg loads prio allowed s' in
                    (EvStart e prio :: evs, s'')
       end
     end
@@ -522,8 +776,9 @@ Definition use_list (g : graph) (p : plan) : list (nat * nat) :=
 Definition is_some {A : Type} (o : option A) : bool := match o with Some _ => true | None => false end.
 
 Definition ex_graph : graph :=
-  mkGraph [ mkEdge [] [2] 1 false; mkEdge [] [2] 1 false; mkEdge [0; 1] [3] 0 false;
-            mkEdge [2] [] 0 true ] [0; 1].
+  mkGraph [ mkEdge [] (plain [2]) 1 false None []; mkEdge [] (plain [2]) 1 false None [];
+            mkEdge (plain [0; 1]) (plain [3]) 0 false None []; mkEdge (plain [2]) [] 0 true None [] ] [0; 1].
+Definition no_loads : nat -> option load := fun _ => None.
 Definition ex_rank : nat -> nat := fun e => e.
 Definition ex_cfg : config := mkConfig 2 1 None.
 Definition ex_cfg_js : config := mkConfig 2 1 (Some 1).
@@ -547,27 +802,90 @@ Definition ex_trace_interrupt : list event :=
 
 Example ex_wf : wf_graph_b ex_graph ex_rank && wf_snap_b ex_graph ex_snap && wf_cfg_b ex_cfg = true.
 Proof. vm_compute. reflexivity. Qed.
-Example ex_ok : is_some (run ex_graph ex_cfg ex_prio ex_snap ex_trace_ok) = true.
+Example ex_ok : is_some (run ex_graph ex_cfg no_loads ex_prio ex_snap ex_trace_ok) = true.
 Proof. vm_compute. reflexivity. Qed.
-Example ex_ok_js : is_some (run ex_graph ex_cfg_js ex_prio ex_snap ex_trace_ok) = true.
+Example ex_ok_js : is_some (run ex_graph ex_cfg_js no_loads ex_prio ex_snap ex_trace_ok) = true.
 Proof. vm_compute. reflexivity. Qed.
-Example ex_fail : is_some (run ex_graph ex_cfg ex_prio ex_snap ex_trace_fail) = true.
+Example ex_fail : is_some (run ex_graph ex_cfg no_loads ex_prio ex_snap ex_trace_fail) = true.
 Proof. vm_compute. reflexivity. Qed.
-Example ex_prune : is_some (run ex_graph ex_cfg ex_prio ex_snap ex_trace_prune) = true.
+Example ex_prune : is_some (run ex_graph ex_cfg no_loads ex_prio ex_snap ex_trace_prune) = true.
 Proof. vm_compute. reflexivity. Qed.
-Example ex_interrupt : is_some (run ex_graph ex_cfg ex_prio ex_snap ex_trace_interrupt) = true.
+Example ex_interrupt : is_some (run ex_graph ex_cfg no_loads ex_prio ex_snap ex_trace_interrupt) = true.
 Proof. vm_compute. reflexivity. Qed.
 (* rejected: starting 1 while 0 holds the pool; starting 2 before its producers finished; exiting
    with success while work remains; starting anything after the failure *)
 Example ex_reject_pool :
-  is_some (run ex_graph ex_cfg ex_prio ex_snap [EvStart 0 ex_prio; EvStart 1 ex_prio]) = false.
+  is_some (run ex_graph ex_cfg no_loads ex_prio ex_snap [EvStart 0 ex_prio; EvStart 1 ex_prio]) = false.
 Proof. vm_compute. reflexivity. Qed.
 Example ex_reject_early :
-  is_some (run ex_graph ex_cfg ex_prio ex_snap [EvStart 0 ex_prio; EvWait; EvFinish 0 0 ex_prio; EvStart 2 ex_prio]) = false.
+  is_some (run ex_graph ex_cfg no_loads ex_prio ex_snap [EvStart 0 ex_prio; EvWait; EvFinish 0 0 ex_prio; EvStart 2 ex_prio]) = false.
 Proof. vm_compute. reflexivity. Qed.
 Example ex_reject_exit :
-  is_some (run ex_graph ex_cfg ex_prio ex_snap [EvStart 0 ex_prio; EvWait; EvFinish 0 0 ex_prio; EvExit 0 MSuccess]) = false.
+  is_some (run ex_graph ex_cfg no_loads ex_prio ex_snap [EvStart 0 ex_prio; EvWait; EvFinish 0 0 ex_prio; EvExit 0 MSuccess]) = false.
 Proof. vm_compute. reflexivity. Qed.
 Example ex_reject_after_failure :
-  is_some (run ex_graph ex_cfg ex_prio ex_snap [EvStart 0 ex_prio; EvWait; EvFinish 0 7 ex_prio; EvStart 1 ex_prio]) = false.
+  is_some (run ex_graph ex_cfg no_loads ex_prio ex_snap [EvStart 0 ex_prio; EvWait; EvFinish 0 7 ex_prio; EvStart 1 ex_prio]) = false.
+Proof. vm_compute. reflexivity. Qed.
+
+(* ------------------------------------------------------------------ an example with a dyndep load *)
+(* Command 0 produces a dyndep file; command 2 is bound to it (ddprod = 0) and has it as an input; the
+   file says that 2 also needs an output of command 1 (pool 1, depth 2): the gated entries.  Command 3
+   consumes 1 as well.  -j3. *)
+Definition dd_graph : graph :=
+  mkGraph [ mkEdge [] (plain [2]) 0 false None [2];
+            mkEdge [] [(2, Some 2); (3, None)] 1 false None [];
+            mkEdge [(0, None); (1, Some 2)] [] 0 false (Some 0) [];
+            mkEdge (plain [1]) [] 0 false None [] ] [0; 2].
+Definition dd_cfg : config := mkConfig 3 1 None.
+Definition dd_snap : snapshot :=
+  mkSnap (fun e => if e <? 4 then Some WToStart else None) (fun _ => false) 4 4.
+(* what the trace says about the load made when 0 finishes: nothing newly dirty, nothing added,
+   dyndep_walk = {1, 2} *)
+Definition dd_loads : nat -> option load :=
+  fun e => if Nat.eqb e 0 then Some (mkLoad [] [] [] [1; 2]) else None.
+Definition dd_trace : list event :=
+  [ EvStart 1 []; EvStart 0 []; EvWait; EvFinish 0 0 []; EvWait; EvFinish 1 0 []; EvStart 2 []; EvStart 3 [];
+    EvWait; EvFinish 2 0 []; EvWait; EvFinish 3 0 []; EvExit 0 MSuccess ].
+
+Example dd_wf : wf_graph_b dd_graph (fun e => e) && wf_snap_b dd_graph dd_snap && wf_cfg_b dd_cfg = true.
+Proof. vm_compute. reflexivity. Qed.
+Example dd_ok : is_some (run dd_graph dd_cfg dd_loads [] dd_snap dd_trace) = true.
+Proof. vm_compute. reflexivity. Qed.
+(* after the load 2 waits for 1: starting it right after 0 has finished is rejected, although without
+   the dyndep information all its inputs would be ready *)
+Example dd_reject_early :
+  is_some (run dd_graph dd_cfg dd_loads [] dd_snap [EvStart 1 []; EvStart 0 []; EvWait; EvFinish 0 0 []; EvStart 2 []]) = false.
+Proof. vm_compute. reflexivity. Qed.
+(* the trace must say what the re-scan decided *)
+Example dd_reject_no_payload :
+  is_some (run dd_graph dd_cfg no_loads [] dd_snap [EvStart 1 []; EvStart 0 []; EvWait; EvFinish 0 0 []]) = false.
+Proof. vm_compute. reflexivity. Qed.
+
+(* only 0 and 2 are in the plan at first; the load discovers the input produced by 1: AddSubTarget puts
+   1 into want_ (dirty: kWantToStart, EdgeWanted), and the walk schedules it *)
+Definition dd_snap2 : snapshot :=
+  mkSnap (fun e => if Nat.eqb e 0 || Nat.eqb e 2 then Some WToStart else None) (fun _ => false) 2 2.
+Definition dd_loads2 : nat -> option load :=
+  fun e => if Nat.eqb e 0 then Some (mkLoad [] [] [(1, true)] [1; 2]) else None.
+Example dd_ok2 :
+  is_some (run dd_graph dd_cfg dd_loads2 [] dd_snap2
+             [ EvStart 0 []; EvWait; EvFinish 0 0 []; EvStart 1 []; EvWait; EvFinish 1 0 []; EvStart 2 [];
+               EvWait; EvFinish 2 0 []; EvExit 0 MSuccess ]) = true.
+Proof. vm_compute. reflexivity. Qed.
+(* a payload that forgets the new want_ entry is refused: want_ would not be closed under producers *)
+Example dd_reject_unclosed :
+  is_some (run dd_graph dd_cfg dd_loads [] dd_snap2 [EvStart 0 []; EvWait; EvFinish 0 0 []]) = false.
+Proof. vm_compute. reflexivity. Qed.
+
+(* THE OLD BUG.  With the old ScheduleInitialEdges, command 1 (in a pool) sits in ready_ with want_ still
+   kWantToStart; it is started; then 0 finishes, the load walks over 1 (AddSubTarget: want != kWantToFinish),
+   EdgeMaybeReady schedules it AGAIN, and it is started a second time while it is still running. *)
+Definition run_old (g : graph) (cfg : config) (loads : nat -> option load) (prio : list nat)
+           (sn : snapshot) (evs : list event) : option state :=
+  accepts g cfg loads (init_state_old g cfg prio sn) evs.
+Definition dd_trace_twice : list event :=
+  [ EvStart 1 []; EvStart 0 []; EvWait; EvFinish 0 0 []; EvStart 1 [] ].
+Example dd_old_started_twice : is_some (run_old dd_graph dd_cfg dd_loads [] dd_snap dd_trace_twice) = true.
+Proof. vm_compute. reflexivity. Qed.
+Example dd_new_not_twice : is_some (run dd_graph dd_cfg dd_loads [] dd_snap dd_trace_twice) = false.
 Proof. vm_compute. reflexivity. Qed.
